@@ -73,6 +73,12 @@ WhySdpPar(ev) ==
     THEN (IF ElemInRange(ev.orig) /\ ElemSer(ev.orig) = ev.bytes THEN {} ELSE {"harness:wf-claim"})
          \cup (IF ev.r # ev.orig THEN {"values"} ELSE {})
          \cup (IF ev.again # ev.bytes THEN {"reserialised"} ELSE {})
+    ELSE IF ev.wf = "w"
+    \* a legal non-minimal size form: the driver supplies the element and the width tree it encoded; again is
+    \* the serialisation of the PARSED object, which must replay the octets it was parsed from
+    THEN (IF ElemInRange(ev.orig) /\ WidthsOk(ev.orig, ev.ow) /\ ElemSerW(ev.orig, ev.ow) = ev.bytes THEN {} ELSE {"harness:wf-claim"})
+         \cup (IF ev.r # ev.orig THEN {"values"} ELSE {})
+         \cup (IF ev.again # ev.bytes THEN {"reserialised"} ELSE {})
     ELSE (IF ev.r # ev.orig THEN {"values"} ELSE {})
 
 \* the parameter widths a registered SMP command class declares (code, widths) against the Core format
